@@ -1171,17 +1171,249 @@ def replay_history(ctx, payload, oracle, methods):
     return bool(fails), dict(oracle_failures=fails[:6], steps=[repr(s) for s in hist["steps"]])
 
 
+# ----------------------------------------------------------------------------- strings, names and numbers at the edges
+#
+# The property quantifies over ALL option dictionaries: string values (and option names) are arbitrary Python strings --
+# non-ASCII, combining characters, astral code points, LONE SURROGATES (what os.fsdecode / sys.argv hand over for a file
+# name that is not valid UTF-8), NUL and other control characters, whitespace, quotes, very long strings -- and integers
+# are unbounded.  Model/EvalRun.v prints characters as bytes, so strings and names are ORACLE ONLY, decided by a
+# metamorphic twin: every literal character of a scenario (expressions, function table, pre-sets, dictionaries) is
+# replaced through an injective character map (edge_scenario), resp. some option names are given edge names
+# (EdgeNames); labrea only ever compares, hashes, copies and serialises these strings, so the renamed scenario is an
+# isomorphic one: whatever clause of the property's oracle fails on it and does NOT fail on the original is a violation
+# (failures both show are the original's business: they go through the ordinary attribution of the main stream).
+# Big integers are expressible in the model (Z): big_int_cases are ordinary cases of the main stream.
+
+EDGE_IMAGES = ["\u00e9", "\u2603", "\U0001f600", "e\u0301", "\u0301", "\udce9", "\ud83d", "\x00", "\u202e", "\u2028", "\ufeff", "\x7f", "\t", "\n", " ", "\"", "'",
+               "%s", "\u00df", "\u0130", "\udcff\udc80", "1", "-", "\u00a0"]
+LONG_IMAGE = "x" * 20000
+EDGE_NAMES = ["Kcaf\u00e9", "K\udce9n", "Kn\u0303", "K n", "K-n", "K\x00n", "K\U0001f600", "K" + "n" * 300, "K\u2028", "K'n", "K\"n", "K\tn", "K%s"]
+NAME_ATOMS = [10, 12, 13, 20, 21, 24, 30]
+
+
+def literal_chars(x, out):
+    if isinstance(x, S):
+        out.update(t[1] for t in x.toks if t[0] == "lit")
+    elif isinstance(x, (tuple, list)):
+        for y in x:
+            literal_chars(y, out)
+    elif isinstance(x, dict):
+        for y in x.values():
+            literal_chars(y, out)
+    return out
+
+
+def map_strings(x, cmap):
+    """every literal character of every scenario string replaced by its image (one token per character of the image)"""
+    if isinstance(x, S):
+        toks = []
+        for t in x.toks:
+            if t[0] == "lit" and t[1] in cmap:
+                toks += [("lit", c) for c in cmap[t[1]]]
+            else:
+                toks.append(t)
+        return S(*toks)
+    if isinstance(x, tuple):
+        return tuple(map_strings(y, cmap) for y in x)
+    if isinstance(x, list):
+        return [map_strings(y, cmap) for y in x]
+    if isinstance(x, dict):
+        return {k: map_strings(v, cmap) for k, v in x.items()}
+    return x
+
+
+SURROGATES = ["\udce9", "\ud83d", "\udcff\udc80"]
+
+
+def edge_map(rng, chars, prefer=(), multi=True):
+    """an injective map of the literal characters that occur onto edge images (single images are distinct strings none
+    of which is a prefix of another, except the very long run of 'x', which nothing else produces)"""
+    chars = sorted(c for c in chars if c != "x")
+    first = sorted(c for c in chars if c in prefer)
+    rng.shuffle(first)
+    rest = [c for c in chars if c not in prefer]
+    rng.shuffle(rest)
+    order = first + rest               # the characters of the dictionaries' values come first
+    pool = [im for im in EDGE_IMAGES if multi or len(im) == 1]
+    sur = [s_ for s_ in SURROGATES if multi or len(s_) == 1]
+    images = rng.sample(pool, min(len(order), len(pool)))
+    if order and rng.random() < 0.6 and not any(im in sur for im in images[:max(1, len(first))]):
+        images[0] = rng.choice([s_ for s_ in sur if s_ not in images] or sur[:1])
+    if multi and len(images) > 1 and rng.random() < 0.15:
+        images[1] = LONG_IMAGE
+    return dict(zip(order, images))
+
+
+def char_level(scn, keys):
+    """does the scenario look INSIDE strings (a dotted key indexing into a string value, a Map iterating over one)?  Then only
+    one-code-point images keep the renamed scenario isomorphic"""
+    if any(s_[0] == "i" for k in keys for s_ in k):
+        return True
+    return any(isinstance(t, tuple) and t and t[0] == "map" for t in cp.sub_exprs([scn["exprs"], scn["env"]]))
+
+
+class EdgeNames:
+    """context manager: some option / section names of the scenario language are edge strings on the implementation
+    side (core.ALIASES, as props/c09.py does); observations are mapped back to the canonical names"""
+
+    def __init__(self, names):
+        self.names = dict(names)
+
+    def __enter__(self):
+        self.saved = (core.ALIASES, core.ALIASES_INV)
+        if self.names:
+            core.ALIASES = {**core.ALIASES, **self.names}
+            core.ALIASES_INV = {v: k for k, v in core.ALIASES.items()}
+        return self
+
+    def __exit__(self, *a):
+        core.ALIASES, core.ALIASES_INV = self.saved
+
+
+def edge_failures(scn, i, o, first, cmap, names):
+    """-> (clauses failing on the renamed scenario only [(kind, detail)], quadruple of the renamed, of the original or None)"""
+    scn2, o2 = map_strings(dict(scn, ops=[]), cmap), map_strings(o, cmap)
+    first2 = None if first is None else (("off", map_strings(first[1], cmap)) if isinstance(first, tuple) else map_strings(first, cmap))
+    with EdgeNames(names):
+        q2 = quad(scn2, i, o2, first2)
+        fails2 = oracle_c10(scn2, i, o2, q2, first2)
+    # the observations decide "values in their domains" by the absence of a ValueError; an encoding error is one too: when the
+    # renamed scenario disagrees and that reading hides it, the ORIGINAL decides the premise (same values up to renaming)
+    pattern2 = [ok(q2[m]) for m in ("validate", "keys", "evaluate")]
+    hidden = len(set(pattern2)) > 1 and not any(k == "agree" for k, d, c in fails2) and total_bodies(scn, scn["exprs"][i])
+    if not fails2 and not hidden:
+        return [], q2, None
+    q = quad(scn, i, o, first)
+    shown = {k for k, d, c in oracle_c10(scn, i, o, q, first)}
+    own = [(k, d) for k, d, c in fails2 if k not in shown]
+    if hidden and "agree" not in shown and premise_total(scn, scn["exprs"][i], q) and len({ok(q[m]) for m in ("validate", "keys", "evaluate")}) == 1:
+        own.append(("agree", dict(validate=res_of(q2["validate"])[:300], keys=res_of(q2["keys"])[:300], evaluate=res_of(q2["evaluate"])[:300],
+                                  premise="on the original scenario the three methods agree and no value is outside its domain; the renamed values are "
+                                          "in their domains exactly when the original ones are")))
+    return own, q2, q
+
+
+def renamed_text(o, cmap, names):
+    with EdgeNames(names):
+        return ascii(core.py_json(map_strings(o, cmap)))[:600]
+
+
+def edge_stream(ctx, n):
+    """-> dict(violations, checks, patterns, ...)"""
+    rng = __import__("random").Random(ctx.seed * 31 + 1010)
+    viol, checks, dist, kinds = [], 0, {}, {"strings": 0, "names": 0, "both": 0}
+    surrogate = 0
+    for j in range(n):
+        g = gen.Gen(rng, with_alloptions=(j % 10 == 0), preset_on_ds=0.3 if j % 2 else 0.0, with_failing=(j % 4 == 0), with_domains=(j % 4 != 1))
+        scn = g.scenario(n_exprs=2, depth=3, n_ops=0)
+        pool = g.dict_pool()
+        # a dictionary under which (nearly) every option the expressions read is present, mostly with string values
+        full = deep_copy(pool[0])
+        used = [k for e in scn["exprs"] for k in option_keys(scn, e)]
+        for k in used:
+            if all(s_[0] == "n" for s_ in k) and lookup(core.py_json(full), core.key_text(k)) == "absent" and rng.random() < 0.9:
+                try:
+                    set_key(full, k, rng.choice([lit("a"), lit("b"), lit("ab"), lit("a b"), 1]))
+                except (AttributeError, TypeError):
+                    pass
+        if gen.LST not in full:
+            full[gen.LST] = [lit("a"), lit("b")]
+        pool = [full, pool[0]] + pool[2:]
+        what = ("strings", "names", "both")[j % 3]
+        kinds[what] += 1
+        cmap = edge_map(rng, literal_chars([scn["exprs"], scn["env"], scn["ftable"], pool[:2]], set()), literal_chars(pool[:2], set()),
+                        multi=not char_level(scn, used + [k for d in pool[:3] for k in refs_in(d)])) if what != "names" else {}
+        names = {}
+        if what != "strings":
+            atoms = sorted({s_[1] for k in used for s_ in k if s_[0] == "n" and s_[1] in NAME_ATOMS}) or NAME_ATOMS
+            atoms = rng.sample(atoms, min(3, len(atoms)))
+            picked = rng.sample(EDGE_NAMES, len(atoms))
+            if rng.random() < 0.6 and "K\udce9n" not in picked:
+                picked[0] = "K\udce9n"
+            names = dict(zip(atoms, picked))
+        surrogate += any("\ud800" <= c <= "\udfff" for s_ in list(cmap.values()) + list(names.values()) for c in s_)
+        for i in range(len(scn["exprs"])):
+            for dj in range(min(2, len(pool))):
+                o = pool[dj]
+                for first in modes(pool, dj):
+                    own, q2, q = edge_failures(scn, i, o, first, cmap, names)
+                    checks += 1
+                    tag = mode_name(o, first) + " " + "".join("1" if ok(q2[m]) else "0" for m in METHODS)
+                    dist[tag] = dist.get(tag, 0) + 1
+                    for kind, detail in own[:1]:
+                        if len(viol) < 25:
+                            viol.append(dict(desc="strings / option names at the edges (the scenario renamed through an injective character map / with edge option "
+                                                  "names; the original scenario does not show this failure): " + DESC[kind], family="edge", oracle=kind,
+                                             mode=mode_name(o, first), expr_index=i, options=repr(o), first=None if first is None else repr(first),
+                                             character_map=repr(cmap), option_names=repr(names), detail=detail, finding=None,
+                                             observed_renamed={m: res_of(q2[m])[:300] for m in METHODS}, observed_original={m: res_of(q[m])[:300] for m in METHODS},
+                                             renamed_options=renamed_text(o, cmap, names), scenario_repr=cp.dump_scn(dict(scn, ops=[]))))
+    return dict(violations=viol, checks=checks, patterns=dist, scenarios=n, by_kind=kinds, scenarios_with_a_lone_surrogate=surrogate)
+
+
+def replay_edge(ctx, payload):
+    scn = cp.load_scn(payload["scenario_repr"])
+    o = eval(payload["options"], {"S": S})
+    first = None if payload.get("first") is None else eval(payload["first"], {"S": S})
+    own, q2, q = edge_failures(scn, payload["expr_index"], o, first, eval(payload["character_map"]), eval(payload["option_names"]))
+    return bool(own), dict(oracle_failures_on_the_renamed_scenario_only=own, observed_renamed={m: res_of(q2[m])[:300] for m in METHODS},
+                           observed_original=None if q is None else {m: res_of(q[m])[:300] for m in METHODS})
+
+
+BIG = [10 ** 30, -(10 ** 25), 2 ** 64, 2 ** 63 - 1, -(2 ** 63) - 1, 10 ** 40]
+HUGE = [10 ** 400, -(10 ** 1000), 2 ** 4000]      # printing these in Coq costs seconds each: oracle only
+
+
+def big_ints(j, rng, keep, big=None):
+    """scenario JSON with the integers (not the booleans) other than `keep` replaced by big ones, the same integer by the same big one"""
+    table = {}
+
+    def go(x):
+        if isinstance(x, bool) or x is None or isinstance(x, S):
+            return x
+        if isinstance(x, int):
+            if x in keep:
+                return x
+            if x not in table:
+                table[x] = rng.choice(big or BIG) + x
+            return table[x]
+        if isinstance(x, list):
+            return [go(y) for y in x]
+        if isinstance(x, dict):
+            return {k: go(v) for k, v in x.items()}
+        return x
+    return go(j)
+
+
+def big_int_cases(ctx, n, huge=False):
+    """ordinary cases whose dictionaries hold big integers: beyond 64 bits, negative, 40 digits (through the model too);
+    huge=True: 400 - 1200 digits (the property's oracle only)"""
+    rng = __import__("random").Random(ctx.seed * 31 + (1012 if huge else 1011))
+    out = []
+    for j in range(n):
+        g = gen.Gen(rng, preset_on_ds=0.3 if j % 2 else 0.0, with_failing=False, with_domains=(j % 4 != 1))
+        scn = g.scenario(n_exprs=2, depth=3, n_ops=0)
+        out.append((scn, [big_ints(o, rng, keep=(0, 1) if j % 2 else (), big=HUGE if huge else None) for o in g.dict_pool()]))
+    return out
+
+
 def run(ctx):
     n = 1200 if ctx.quick else 12000
     corpus = corpus_for(PID)
     cases = [(dict(s, ops=[]), ([op[4] for op in s["ops"]][:3] or [{}])) for _, s in corpus] + generate(ctx, n)
+    bigs = big_int_cases(ctx, 40 if ctx.quick else 400)
+    cases += bigs
     hist = [s for _, s in corpus] + [history(ctx, scn, pool) for scn, pool in cases[len(corpus):]]
+    huge = big_int_cases(ctx, 30 if ctx.quick else 300, huge=True)
+    cases += huge          # after the histories: not through the model
     impls, models, mism, stats = cp.correspondence(ctx, hist, "Cases_C10")
     cl = class_stream(ctx, PID, 100 if ctx.quick else 1000, oracle_c10, DESC)
     hs = history_stream(ctx, PID, 60 if ctx.quick else 600, oracle_c10, DESC, METHODS)
     nsp = namespace_stream10(ctx, 30 if ctx.quick else 400)
+    edge = edge_stream(ctx, 150 if ctx.quick else 1500)
     violations, checks, distinct, dist, tagged = run_oracles(ctx, PID, cases, oracle_c10, DESC, 3 if ctx.quick else 4, extra=cl["raw"] + nsp["raw"])
     ns_new = [v for v in nsp["violations"] if v["finding"] is None]
+    violations += edge["violations"][:25]
     violations += cl["violations"][:25] + hs["violations"][:25] + ns_new[:25] + [v for v in nsp["violations"] if v["finding"]][:25]
     if nsp["tagged_NS1"]:
         tagged["NS1"] = nsp["tagged_NS1"]
@@ -1194,7 +1426,7 @@ def run(ctx):
         q = quad_cold(scn, 0, pool[0])
         sample.append(dict(expr=repr(scn["exprs"][0])[:300], options=repr(pool[0])[:160], observed={m: q[m][:80] for m in METHODS}))
     return {
-        "evaluations": stats["ops"] + 4 * checks + 4 * cl["checks"] + cl["ops"] + 4 * hs["checks"] + 4 * nsp["checks"],
+        "evaluations": stats["ops"] + 4 * checks + 4 * cl["checks"] + cl["ops"] + 4 * hs["checks"] + 4 * nsp["checks"] + 4 * edge["checks"],
         "distinct_nontrivial": len(distinct),
         "rule": "C01 profile (random expression graphs: datasets with overloads/pre-set/default options/callbacks/effects, options with defaults, "
                 "domains and templated values, apply, bind, switch, case, coalesce, collections, Map, Template, WithOptions, cached); every third "
@@ -1208,7 +1440,11 @@ def run(ctx):
                 "every object asked under every dictionary (the empty one too) after every step (oracle only). Option namespaces (generator of props/c11.py: "
                 "bare / named / nested, annotated / default / evaluatable-default / Option(KEY) / Option.auto with >> transformations and domains): the "
                 "namespace, nested namespaces and members by attribute access under the sufficient dictionary and its neighbours, cold and warm (oracle "
-                "only; failures caused by transformed Option.auto members are the recorded finding NS1, decided by removing the transformations). Non-trivial = the four methods do not all succeed nor all fail; distinct by hash of "
+                "only; failures caused by transformed Option.auto members are the recorded finding NS1, decided by removing the transformations). "
+                "Strings and names at the edges (oracle only; the model prints bytes): random scenarios renamed through an injective map of their literal "
+                "characters onto non-ASCII / combining / astral characters, LONE SURROGATES, NUL and control characters, whitespace, quotes, a 20000-character "
+                "run, and / or with edge option and section names; cold and warm; a clause that fails on the renamed scenario and not on the original is a "
+                "violation. Big integers in the dictionaries: beyond 64 bits, negative, 40 digits as ordinary cases through the model too; 400 - 1200 digits under the oracle only. Non-trivial = the four methods do not all succeed nor all fail; distinct by hash of "
                 "(expression, dictionary, first dictionary). Correspondence: histories ask-evaluate-ask on one long-lived graph.",
         "samples": sample,
         "traces_validated_against_impl": stats["ops"] + cl["ops"],
@@ -1219,6 +1455,9 @@ def run(ctx):
                              scenarios=len(cases),
                              dataset_classes=dict(scenarios=cl["scenarios"], quadruples=cl["checks"], ops_vs_model=cl["ops"], patterns=cl["patterns"]),
                              mutator_histories=dict(histories=hs["histories"], moments_asked=hs["checks"], mutators=hs["mutators"]),
+                             big_integer_scenarios=len(bigs), huge_integer_scenarios_oracle_only=len(huge),
+                             edge_strings_and_names=dict(scenarios=edge["scenarios"], quadruples=edge["checks"], by_kind=edge["by_kind"],
+                                                         scenarios_with_a_lone_surrogate=edge["scenarios_with_a_lone_surrogate"], patterns=edge["patterns"]),
                              namespaces=dict(scenarios=nsp["scenarios"], quadruples=nsp["checks"], patterns=nsp["patterns"], attributed_to_NS1=nsp["tagged_NS1"])),
         "exhaustive": False,
         "assumptions": ["user code is deterministic; 'bodies total' is read off the scenario (no reachable function is declared partial, no reachable bind function is partial) and "
@@ -1246,6 +1485,8 @@ def replay(ctx, payload):
         return replay_history(ctx, payload, oracle_c10, METHODS)
     if payload.get("family") == "namespace":
         return replay_namespace10(ctx, payload)
+    if payload.get("family") == "edge":
+        return replay_edge(ctx, payload)
     scn = cp.load_scn(payload["scenario_repr"])
     i = payload["expr_index"]
     o = eval(payload["options"], {"S": S})
